@@ -154,15 +154,46 @@ def run_with_shim(scratch, args, roots, classes="m", stdin=b"", cwd=None, mode=N
             "events": read_log(log), "killed": False, "paused": paused}
 
 
+def canon(events):
+    """Identity of every event for determinism checks. Paths that come into being during the run - the destination of
+    a rename inside one directory, or a path whose first appearance is an open with O_CREAT - are renamed to
+    '<directory>/@new<n>' in order of appearance, so that randomly named temporary files compare equal whatever the
+    naming scheme is; what is left is normalised as in Event.norm()."""
+    names = {}
+    seen = set()
+
+    def created(p):
+        if p not in names and p not in seen:
+            names[p] = "%s/@new%d" % (os.path.dirname(p), len(names))
+
+    out = []
+    for e in events:
+        if e.call == "rename" and os.path.dirname(e.path) == os.path.dirname(e.path2):
+            seen.add(e.path)
+            created(e.path2)
+        elif e.call == "open" and "creat" in e.info:
+            created(e.path)
+        for q in (e.path, e.path2):
+            if q:
+                seen.add(q)
+        cls, call, p1, p2, info = e.norm()
+        p1 = names.get(e.path, p1)
+        if e.call != "symlink":
+            p2 = names.get(e.path2, p2)
+        out.append((cls, call, p1, p2, info))
+    return out
+
+
 def same_history(a, b, upto=None):
     """Compares two event lists (normalised). Returns None if equal (up to index `upto`), else a description."""
     n = min(len(a), len(b)) if upto is None else upto
     if upto is None and len(a) != len(b):
         return "different lengths %d vs %d" % (len(a), len(b))
+    ca, cb = canon(a), canon(b)
     for i in range(n):
         if i >= len(a) or i >= len(b):
             return "history ends early at %d" % i
-        if a[i].norm() != b[i].norm():
+        if ca[i] != cb[i]:
             return "event %d differs: %r vs %r" % (i, a[i], b[i])
     return None
 
